@@ -46,7 +46,9 @@ CollLaw(fn, res, each) ==
                           IF k = <<>> THEN res.t = "nil" \/ (res.t = "Collection" /\ Len(res.g) = 0)
                           ELSE IF Len(k) = 1 THEN ResEq(res, k[1])
                           ELSE res.t = "Collection" /\ Len(res.g) = Len(k) /\ \A i \in 1..Len(k) : ResEq(res.g[i], k[i])
-     [] law = "union"  -> (\A i \in 1..Len(each) : each[i].t \in {"set", "nil"}) =>
-                             (res.t = "set" /\ {res.s[j] : j \in 1..Len(res.s)} = SetUnion(each))
+     [] law = "union"  -> /\ (\A i \in 1..Len(each) : each[i].t \in {"set", "nil"}) =>
+                                (res.t = "set" /\ {res.s[j] : j \in 1..Len(res.s)} = SetUnion(each))
+                          \* a member that cannot be covered (its own result is an error) makes the whole collection one
+                          /\ ((\E i \in 1..Len(each) : each[i].t = "err") => res.t = "err")
      [] OTHER -> TRUE
 =============================================================================
